@@ -389,6 +389,43 @@ def r15_3(ctx, prog, crate):
         ctx.check(ids == {f.replace("_", "-")}, "R15.3", ["store", f],
                   "bench_options.%s is set from option(s) %s, expected --%s" % (f, sorted(ids), f.replace("_", "-")), b.where(bi),
                   detail={"field": f, "from": sorted(ids)})
+    # a run-time value overrides lower levels whatever it is: the store depends on the option being PRESENT, never on the
+    # value given (an explicit `false` / `0` must be recorded as Some(false) / Some(0), not left unset)
+    from lib.symexpr import Sym
+    SY = Sym(b, site_args=True)
+
+    def mentions_site(e, bbs):
+        if isinstance(e, tuple):
+            if e and e[0] == "site" and e[2] in bbs:
+                return True
+            return any(mentions_site(x, bbs) for x in e)
+        return False
+    all_blocks = set(range(len(b.blocks)))
+    for bi, si, s in b.stmts():
+        if s["k"] != "assign" or s["p"]["l"] != 1:
+            continue
+        fs = place_fields(s["p"])
+        if fs[:1] != ("bench_options",) or len(fs) < 2 or fs[1].replace("_", "-") not in reads:
+            continue
+        f = fs[1]
+        gbbs = {c.bb for c in reads[f.replace("_", "-")]}
+        bad = []
+        for x, t in b.switches():
+            succ = b.succ[x]
+            if not b.dominates(x, bi):
+                continue
+            reach_from = [bi in b.reach([y]) for y in succ]
+            if all(reach_from) or not any(reach_from):
+                continue            # does not decide whether the store happens
+            e = SY.op(t["discr"])
+            if not mentions_site(e, gbbs):
+                continue
+            presence = e[0] == "discr" or (e[0] == "site" and e[1].endswith(("Option::is_some", "Option::is_none")))
+            if not presence:
+                bad.append(b.where(x))
+        ctx.check(not bad, "R15.3", ["store", f, "iff-present"],
+                  "whether bench_options.%s is stored depends on the VALUE given for --%s (test at %s), not only on its presence: an explicit run-time value "
+                  "would not override the attribute/group level" % (f, f.replace("_", "-"), bad), b.where(bi))
     ctx.check(seen_fields >= {x for x in fields if x not in ("ignore", "counters")}, "R15.3", ["store", "all-fields"],
               "config_with_args never stores %s" % sorted(set(fields) - seen_fields - {"ignore", "counters"}), b.where(0))
     # counters: `x-count` -> XCount
